@@ -191,3 +191,4 @@ Example C20_nonvacuous :
      = (Some (mkcall ["given"] [("d", "v_d"); ("c", "v_c"); ("e", "site")]),
         Ok [("a", "given"); ("b", "2.0"); ("c", "v_c"); ("d", "v_d"); ("e", "site")]).
 Proof. vm_compute. repeat split; reflexivity. Qed.
+Print Assumptions C20_nonvacuous.
